@@ -285,6 +285,7 @@ json seeded_workload(uint64_t seed)
 	sg.pcb = true;
 	sg.vcb = r.chance(1, 2);
 	sg.keystrval = true;
+	sg.simple = true;
 	sg.max_opts = 5;
 	json schema = gen_schema(r, sg);
 	plan["schemas"] = json::array({schema});
